@@ -13,6 +13,7 @@ import RbV.Lemmas.PoaModes
 import RbV.Lemmas.PoaGrowAll
 import RbV.Lemmas.PoaChainLink
 import RbV.Lemmas.PoaCustomGlobal
+import RbV.Thm.GenLimits
 /-!
 # C16 — partial-order alignment: exact on linear graphs, graph stays a growing DAG
 
@@ -410,5 +411,27 @@ example : extendsB [65, 67] [(0, 1, 2)] [65, 67, 71] [(0, 1, 1), (1, 2, 1)] = fa
 example : ∃ s, score exSc [65, 67] [65, 67] [.mat, .mat] = some s ∧ nwBest exSc [65, 67] [65, 67] = s ∧
     ∀ ops v, score exSc [65, 67] [65, 67] ops = some v → ops ≠ [.mat, .mat] → v < s :=
   identity_is_unique_optimum exSc 1 (by intro a b; simp [exSc]; split <;> omega) (by simp [exSc]) (by simp [exSc]) [65, 67]
+
+/-! ### Source-extracted obligations (DESIGN §8): `MIN_SCORE` of `poa.rs`
+
+`RbV/Gen/Limits.lean` is regenerated from the source text of the tree under test on every `./check C16`
+(tools/gen_tables.py) before `lake build`; the mirror models (`Poa.Model.minScore`) and the driver are defined by the
+extracted constant, and the statements below are re-proved over whatever was extracted. -/
+
+/-- the `MIN_SCORE` the POA mirror models and the driver use **is** the constant extracted from `poa.rs` -/
+theorem poa_min_score_is_source_constant : Poa.Model.minScore = RbV.Gen.Limits.minScorePoa := rfl
+
+/-- `poa.rs` keeps its own copy of `MIN_SCORE` ("see alignment/pairwise/mod.rs"): the two copies agree -/
+theorem poa_min_score_eq_pairwise : Poa.Model.minScore = RbV.Gen.Limits.minScorePairwise :=
+  GenLimits.min_score_pairwise_eq_poa.symm
+
+/-- out-of-band / impossible cells carry `MIN_SCORE` and one gap or clip penalty is added to them: two sentinels still
+fit `i32`, and the sentinel is negative -/
+theorem poa_min_score_no_i32_overflow :
+    -(2 ^ 31 : Int) ≤ Poa.Model.minScore + Poa.Model.minScore ∧ Poa.Model.minScore < 0 :=
+  ⟨GenLimits.two_min_scores_no_i32_overflow.2.2, by
+    have h := GenLimits.min_score_range.2
+    rw [GenLimits.min_score_pairwise_eq_poa] at h
+    exact h⟩
 
 end RbV.Thm.C16
